@@ -340,6 +340,7 @@ func runRename(res *vh.Result, seed uint64, n int, known bool, outDir string, ki
 		fin.Close()
 		fout.Close()
 		runPrintCases(seed, 6000, outDir, res.Extra)
+		runRewriteCases(seed, 6000, outDir, res.Extra)
 		return
 	}
 	fmt.Fprintf(fin, "rename_keywords\t%s\n", strings.Join(kh, ","))
